@@ -29,4 +29,17 @@ def signsJ (j : Json) : Except String Json := do
   pure <| Json.mkObj [("sign1", if sign1Neg l ferm odd then (-1 : Int) else (1 : Int)),
     ("sign2", if sign2Neg l ferm odd k then (-1 : Int) else (1 : Int))]
 
+def kindOf (s : String) : Except String Kind :=
+  match s with | "R" => pure .R | "I" => pure .I | "RI" => pure .RI | _ => throw "kind"
+def kindStr : Kind → String | .R => "R" | .I => "I" | .RI => "RI"
+
+def cexpOf (j : Json) : Except String (CExp Int) := do
+  pure ⟨← kindOf (← getStr j "kind"), ← getInt j "ck", (getInt j "ck2").toOption.getD 0⟩
+
+def combineJ (j : Json) : Except String Json := do
+  let a ← cexpOf (← j.getObjVal? "a")
+  let b ← cexpOf (← j.getObjVal? "b")
+  let c := combine a b
+  pure <| Json.mkObj [("kind", kindStr c.kind), ("ck", (c.ck : Json)), ("ck2", (c.ck2 : Json))]
+
 end Qv.Drv.C19
